@@ -9,7 +9,8 @@
 (* which a merge / a close takes effect are silent steps.  MergeStart.h is *)
 (* a search hint computed from the trace itself: the close whose aggregate *)
 (* contained the input (0 = none); it only prunes runs that could never be *)
-(* accepted.                                                               *)
+(* accepted (an input emitted by close c cannot take effect after close c  *)
+(* did).                                                                   *)
 (***************************************************************************)
 EXTENDS MutexAbs, Sequences, Json, IOUtils
 
@@ -35,7 +36,9 @@ TQuiesce    == Ev("Quiesce") /\ Adv /\ MQuiesced /\ UNCHANGED <<mvars, hint>>
 
 \* closes are made one after the other: the close in progress or next to begin
 NextClose == Cardinality({c \in DOMAIN cstate : cstate[c] # "started"}) + 1
-SilentLinMerge == /\ l <= N /\ \E i \in mpend : hint[i] = NextClose /\ LinMerge(i)
+\* (a merge that was never emitted, hint 0, may take effect any time: the run is then rejected where
+\* a close fails to emit it, not at the merge)
+SilentLinMerge == /\ l <= N /\ \E i \in mpend : (hint[i] = 0 \/ hint[i] >= NextClose) /\ LinMerge(i)
                   /\ UNCHANGED <<l, hint>>
 SilentLinClose == /\ l <= N /\ \E c \in DOMAIN cstate : LinClose(c)
                   /\ UNCHANGED <<l, hint>>
